@@ -58,6 +58,11 @@ pub open spec fn lawful<K: Borrow<Q>, Q: PartialEq + ?Sized>() -> bool {
     obeys_borrow::<K, Q>() && Q::obeys_eq_spec()
 }
 
+/// hypothesis: looking a map up by its own key type goes through the blanket `impl<T> Borrow<T> for T`
+pub open spec fn borrow_refl<K>() -> bool {
+    obeys_borrow::<K, K>() && forall|k: K| #![trigger borrow_spec::<K, K>(&k)] *borrow_spec::<K, K>(&k) == k
+}
+
 /// the stored key `stored` answers a lookup by `q`
 pub open spec fn matches<K: Borrow<Q>, Q: PartialEq + ?Sized>(stored: K, q: &Q) -> bool {
     borrow_spec::<K, Q>(&stored).eq_spec(q)
@@ -207,6 +212,11 @@ impl<K, V, const N: usize> Map<K, V, N> {
     /// no live slot answers a lookup by `q`
     pub open spec fn no_match<Q: PartialEq + ?Sized>(&self, q: &Q) -> bool where K: Borrow<Q> {
         forall|i: int| 0 <= i < self.len ==> !matches((#[trigger] slot_of(self.pairs, i)).unwrap().0, q)
+    }
+
+    /// the map binds (a key equal to) `k` to a value equal to `v`: its first slot answering `k` holds such a value
+    pub open spec fn binds(&self, k: K, v: V) -> bool where K: PartialEq + Borrow<K>, V: PartialEq {
+        exists|j: int| 0 <= j < self.len && (#[trigger] slot_of(self.pairs, j)).unwrap().1.eq_spec(&v) && self.first_match(&k, j)
     }
 
     /// the keys of the live slots are pairwise unrelated by `rel` (in both orders)
